@@ -293,3 +293,175 @@ Example ex_mccs_empty :
   hmccs has_mono [1; 2]%N [9; 3]%N 4 5 [gCO; gN; gCO] = Some (LG [] []) /\
   hmccs has_mono [1; 2]%N [9; 3]%N 4 5 [gCOC; gCO; gOC] = Some gCO /\ hmccs has_mono [1; 2]%N [9; 3]%N 4 5 [] = None.
 Proof. repeat split; vm_compute; reflexivity. Qed.
+
+(* ------------------------------------------------------------------ the size of the result does not depend on the argument order *)
+(** helpers about the subgraph induced by a node list S that lies inside the graph *)
+Lemma induced_in (g : graph) S u : incl S (node_ids g) -> (In u (node_ids (induced_sub g S)) <-> In u S).
+Proof. intros Hin. rewrite node_ids_induced. split; [tauto|]. intros I. split; auto. Qed.
+
+Lemma induced_nlabel (g : graph) S u : In u S -> nlabel (induced_sub g S) u = nlabel g u.
+Proof.
+  intros I. unfold nlabel. rewrite label_induced. apply LGraph.mem_spec in I. rewrite I. reflexivity.
+Qed.
+
+Lemma induced_adj_in (g : graph) S u v : gwf g -> In u S -> In v S -> LGraph.adj (induced_sub g S) u v = LGraph.adj g u v.
+Proof.
+  intros W Iu Iv. rewrite (adj_induced S u v W). apply LGraph.mem_spec in Iu. apply LGraph.mem_spec in Iv. rewrite Iu, Iv. reflexivity.
+Qed.
+
+Definition sym2 (m : attrs -> attrs -> bool) : Prop := forall h p, m h p = m p h.
+
+Section Transfer.
+Variables nm em : attrs -> attrs -> bool.
+Hypothesis Sn : sym2 nm.
+Hypothesis Se : sym2 em.
+Variables larger smaller : graph.
+Hypothesis WL : gwf larger.
+Hypothesis WS : gwf smaller.
+Variable S : list N.
+Hypothesis HndS : NoDup S.
+Hypothesis HinS : incl S (node_ids smaller).
+Variable f : N -> N.
+Hypothesis He : emb true nm em larger (induced_sub smaller S) f.
+
+Let r := induced_sub smaller S.
+Let S' := map f S.
+Let r' := induced_sub larger S'.
+Let g := finv f S.
+
+Lemma tr_f_in u : In u S -> In (f u) (node_ids larger) /\ nm (nlabel larger (f u)) (nlabel smaller u) = true.
+Proof.
+  intros Iu. destruct He as (E1 & _). destruct (E1 u (proj2 (induced_in smaller S u HinS) Iu)) as (A & B).
+  split; auto. rewrite (induced_nlabel smaller S u Iu) in B. exact B.
+Qed.
+
+Lemma tr_inj u v : In u S -> In v S -> f u = f v -> u = v.
+Proof. intros Iu Iv. destruct He as (_ & E2 & _). apply E2; apply (induced_in smaller S); auto. Qed.
+
+Lemma tr_adj u v : In u S -> In v S -> u <> v ->
+  match LGraph.adj smaller u v, LGraph.adj larger (f u) (f v) with
+  | Some b, Some b' => em b' b = true
+  | None, None => True
+  | _, _ => False
+  end.
+Proof.
+  intros Iu Iv Hne. destruct He as (_ & _ & E3).
+  specialize (E3 u v (proj2 (induced_in smaller S u HinS) Iu) (proj2 (induced_in smaller S v HinS) Iv) Hne).
+  rewrite (induced_adj_in smaller S u v WS Iu Iv) in E3.
+  destruct (LGraph.adj smaller u v), (LGraph.adj larger (f u) (f v)); auto. discriminate.
+Qed.
+
+Lemma tr_S'_nodup : NoDup S'.
+Proof. apply NoDup_map_inj_in; auto. intros a b Ia Ib. apply tr_inj; auto. Qed.
+
+Lemma tr_S'_incl : incl S' (node_ids larger).
+Proof. intros h Ih. apply in_map_iff in Ih. destruct Ih as (u & <- & Iu). apply tr_f_in. exact Iu. Qed.
+
+Lemma tr_g v : In v S' -> In (g v) S /\ f (g v) = v.
+Proof. intros Iv. apply finv_r. apply in_map_iff in Iv. destruct Iv as (u & E & Iu). exists u. auto. Qed.
+
+Lemma tr_g_f u : In u S -> g (f u) = u.
+Proof. intros Iu. apply finv_l; auto. intros a b Ia Ib. apply tr_inj; auto. Qed.
+
+(** the image of the embedding is a subgraph of the larger graph that occurs (induced) in the smaller one *)
+Lemma tr_contained : contained true nm em smaller r'.
+Proof.
+  exists g. split; [|split].
+  - intros v Iv. apply (induced_in larger S' v tr_S'_incl) in Iv. destruct (tr_g v Iv) as (Ig & Ef).
+    split; [apply HinS; exact Ig|]. unfold r'. rewrite (induced_nlabel larger S' v Iv).
+    destruct (tr_f_in (g v) Ig) as (_ & Hn). rewrite Ef in Hn. rewrite Sn. exact Hn.
+  - intros v w Iv Iw E. apply (induced_in larger S' v tr_S'_incl) in Iv. apply (induced_in larger S' w tr_S'_incl) in Iw.
+    destruct (tr_g v Iv) as (_ & Ev). destruct (tr_g w Iw) as (_ & Ew). congruence.
+  - intros v w Iv Iw Hne. apply (induced_in larger S' v tr_S'_incl) in Iv. apply (induced_in larger S' w tr_S'_incl) in Iw.
+    destruct (tr_g v Iv) as (Igv & Ev). destruct (tr_g w Iw) as (Igw & Ew).
+    assert (Hg : g v <> g w) by (intros E; apply Hne; congruence).
+    pose proof (tr_adj (g v) (g w) Igv Igw Hg) as A. rewrite Ev, Ew in A.
+    unfold r'. rewrite (induced_adj_in larger S' v w WL Iv Iw).
+    destruct (LGraph.adj larger v w), (LGraph.adj smaller (g v) (g w)); auto; try contradiction. rewrite Se. exact A.
+Qed.
+
+Lemma tr_reach x z : In x S -> reach r x z -> In z S /\ reach r' (f x) (f z).
+Proof.
+  intros Ix H. induction H as [z [<-|[]]|u v _ IH I]; [split; [exact Ix | apply reach_refl]|].
+  destruct IH as (Iu & Ru).
+  pose proof (wf_induced S WS) as Wr. fold (gwf (induced_sub smaller S)) in Wr.
+  destruct (nbrs_wf (induced_sub smaller S) u v Wr I) as (_ & Iv & Hne & A).
+  apply (induced_in smaller S v HinS) in Iv. split; [exact Iv|].
+  eapply conn_step; [exact Ru|]. apply adj_nbrs. unfold r'.
+  rewrite (induced_adj_in larger S' (f u) (f v) WL (in_map f S u Iu) (in_map f S v Iv)).
+  rewrite (induced_adj_in smaller S u v WS Iu Iv) in A.
+  pose proof (tr_adj u v Iu Iv Hne) as T. destruct (LGraph.adj smaller u v); [|congruence].
+  destruct (LGraph.adj larger (f u) (f v)); [discriminate|contradiction].
+Qed.
+
+Lemma tr_sizes : n_nodes r' = n_nodes r.
+Proof.
+  unfold r', r. rewrite (induced_n_nodes larger S' WL tr_S'_nodup tr_S'_incl), (induced_n_nodes smaller S WS HndS HinS).
+  apply map_length.
+Qed.
+
+Lemma tr_admissible : admissible_spec r -> admissible_spec r'.
+Proof.
+  intros [A|A]; [left; rewrite tr_sizes; exact A|]. right. intros x y Ix Iy.
+  apply (induced_in larger S' x tr_S'_incl) in Ix. apply (induced_in larger S' y tr_S'_incl) in Iy.
+  destruct (tr_g x Ix) as (Igx & Ex). destruct (tr_g y Iy) as (Igy & Ey).
+  assert (R : reach r (g x) (g y)) by (apply A; apply (induced_in smaller S); auto).
+  destruct (tr_reach (g x) (g y) Igx R) as (_ & R'). rewrite Ex, Ey in R'. exact R'.
+Qed.
+End Transfer.
+
+Lemma mccs_pick_unequal g1 g2 : n_nodes g1 <> n_nodes g2 -> mccs_pick g1 g2 = mccs_pick g2 g1.
+Proof.
+  intros Hne. unfold mccs_pick. destruct (n_nodes g1 <=? n_nodes g2) eqn:A, (n_nodes g2 <=? n_nodes g1) eqn:B; auto.
+  - apply Nat.leb_le in A. apply Nat.leb_le in B. lia.
+  - apply Nat.leb_gt in A. apply Nat.leb_gt in B. lia.
+Qed.
+
+(** maximum_connected_common_subgraph(g1, g2) and (g2, g1) have the same number of nodes (for unequal orders they are the same graph)
+    whenever the matchers are symmetric — which the equality matchers of the code are *)
+Theorem mccs_of_size_le vf2b : vf2b_contract vf2b -> forall nm em, sym2 nm -> sym2 em ->
+  forall ga gb, gwf ga -> gwf gb -> n_nodes (mccs_of vf2b nm em gb ga) <= n_nodes (mccs_of vf2b nm em ga gb).
+Proof.
+  intros VB nm em Sn Se ga gb Wa Wb.
+  destruct (mccs_of_spec vf2b VB nm em gb ga Wb Wa) as ((S & Hnd & Hin & Er & En) & Adm & (f & He) & _).
+  destruct (mccs_of_spec vf2b VB nm em ga gb Wa Wb) as (_ & _ & _ & Mx).
+  rewrite Er in He, Adm. rewrite En, <- (map_length f S).
+  apply Mx.
+  - apply (tr_S'_nodup nm em gb ga S Hnd Hin f He).
+  - apply (tr_S'_incl nm em gb ga S Hin f He).
+  - split; [apply (tr_admissible nm em gb ga Wb Wa S Hnd Hin f He Adm) | apply (tr_contained nm em Sn Se gb ga Wb Wa S Hin f He)].
+Qed.
+
+Lemma mccs_nm_sym names defaults : sym2 (mccs_nm names defaults).
+Proof.
+  intros h p. unfold mccs_nm, nm_sub. induction (combine names defaults) as [|kd r IH]; simpl; [reflexivity|]. rewrite IH, N.eqb_sym. reflexivity.
+Qed.
+Lemma mccs_em_sym eattr done : sym2 (mccs_em eattr done).
+Proof. intros h p. unfold mccs_em. apply N.eqb_sym. Qed.
+
+Theorem mccs_size_symmetric vf2b : vf2b_contract vf2b ->
+  forall names defaults eattr done g1 g2, gwf g1 -> gwf g2 ->
+    n_nodes (mccs vf2b names defaults eattr done g1 g2) = n_nodes (mccs vf2b names defaults eattr done g2 g1) /\
+    (n_nodes g1 <> n_nodes g2 -> mccs vf2b names defaults eattr done g1 g2 = mccs vf2b names defaults eattr done g2 g1).
+Proof.
+  intros VB names defaults eattr done g1 g2 W1 W2.
+  assert (U : n_nodes g1 <> n_nodes g2 -> mccs vf2b names defaults eattr done g1 g2 = mccs vf2b names defaults eattr done g2 g1).
+  { intros Hne. rewrite !mccs_unfold, (mccs_pick_unequal g1 g2 Hne). reflexivity. }
+  split; [|exact U]. destruct (Nat.eq_dec (n_nodes g1) (n_nodes g2)) as [E|Hne]; [|rewrite (U Hne); reflexivity].
+  rewrite !mccs_unfold. unfold mccs_pick. rewrite E, Nat.leb_refl. simpl.
+  apply Nat.le_antisymm; apply (mccs_of_size_le vf2b VB); auto using mccs_nm_sym, mccs_em_sym.
+Qed.
+
+(** C-O-C against C-O and C-O against C-O-C: the same graph; C-O against C-[O-] (equal orders, element + charge): one node (the C)
+    either way — the node comes from the first argument, so the graphs differ while the sizes agree *)
+Example ex_mccs_symmetric :
+  mccs has_mono [1; 2]%N [9; 3]%N 4 5 gCO gCOC = mccsEx /\
+  n_nodes (mccs has_mono [1; 2]%N [9; 3]%N 4 5 gCO gCOm) = 1%nat /\ n_nodes (mccs has_mono [1; 2]%N [9; 3]%N 4 5 gCOm gCO) = 1%nat /\
+  mccs has_mono [1; 2]%N [9; 3]%N 4 5 gCO gCOm <> mccs has_mono [1; 2]%N [9; 3]%N 4 5 gCOm gCO.
+Proof.
+  split.
+  - symmetry. apply (mccs_size_symmetric has_mono has_mono_contract [1; 2]%N [9; 3]%N 4%N 5%N gCOC gCO wf_gCOC wf_gCO). vm_compute. lia.
+  - split; [vm_compute; reflexivity|]. split.
+    + rewrite <- (proj1 (mccs_size_symmetric has_mono has_mono_contract [1; 2]%N [9; 3]%N 4%N 5%N gCO gCOm wf_gCO wf_gCOm)). vm_compute. reflexivity.
+    + vm_compute. discriminate.
+Qed.
